@@ -6,7 +6,9 @@ pub mod world;
 pub mod enginekit;
 pub mod c01;
 pub mod c02;
+pub mod c04;
 pub mod c05;
+pub mod c07;
 pub mod c11;
 pub mod c14;
 pub mod c17;
@@ -21,7 +23,9 @@ pub struct Property {
 pub const ALL: &[Property] = &[
     Property { id: "C01", run: c01::run, replay: c01::replay },
     Property { id: "C02", run: c02::run, replay: c02::replay },
+    Property { id: "C04", run: c04::run, replay: c04::replay },
     Property { id: "C05", run: c05::run, replay: c05::replay },
+    Property { id: "C07", run: c07::run, replay: c07::replay },
     Property { id: "C11", run: c11::run, replay: c11::replay },
     Property { id: "C14", run: c14::run, replay: c14::replay },
     Property { id: "C17", run: c17::run, replay: c17::replay },
